@@ -242,7 +242,7 @@ pub fn r_cmd(line: &str) -> Verdict {
                 let (tok, extra) = value_and_rest(a);
                 if !tok.is_empty() && tok.chars().all(|c| c.is_ascii_digit()) {
                     match tok.parse::<usize>() {
-                        Ok(n) if n <= 100_000 && extra.is_empty() => Verdict::Effect(Effect::Next(n)),
+                        Ok(n) if n <= 10_000_000 && extra.is_empty() => Verdict::Effect(Effect::Next(n)),
                         _ => Verdict::Unspecified,
                     }
                 } else {
@@ -502,15 +502,15 @@ impl Session {
 fn apply_effect(twin: &mut Machine, e: &Effect) -> Result<bool, ()> {
     match e {
         Effect::SetIn(r, val) => match r {
-            0 => twin.set_input_fc(*val),
-            1 => twin.set_input_fd(*val),
-            2 => twin.set_input_fe(*val),
-            _ => twin.set_input_ff(*val),
+            0 => { let _ = twin.set_input_fc(*val); }
+            1 => { let _ = twin.set_input_fd(*val); }
+            2 => { let _ = twin.set_input_fe(*val); }
+            _ => { let _ = twin.set_input_ff(*val); }
         },
-        Effect::SetIrg(val) => twin.set_digital_input1(*val),
-        Effect::SetTemp(f) => twin.set_temp(*f),
-        Effect::SetI1(f) => twin.set_analog_input1(*f),
-        Effect::SetI2(f) => twin.set_analog_input2(*f),
+        Effect::SetIrg(val) => { let _ = twin.set_digital_input1(*val); }
+        Effect::SetTemp(f) => { let _ = twin.set_temp(*f); }
+        Effect::SetI1(f) => { let _ = twin.set_analog_input1(*f); }
+        Effect::SetI2(f) => { let _ = twin.set_analog_input2(*f); }
         Effect::SetJ(n, b) => {
             if *n == 1 {
                 twin.set_jumper1(*b)
@@ -519,9 +519,9 @@ fn apply_effect(twin: &mut Machine, e: &Effect) -> Result<bool, ()> {
             }
         }
         Effect::SetUio(n, b) => match n {
-            1 => twin.set_universal_input_output1(*b),
-            2 => twin.set_universal_input_output2(*b),
-            _ => twin.set_universal_input_output3(*b),
+            1 => { let _ = twin.set_universal_input_output1(*b); }
+            2 => { let _ = twin.set_universal_input_output2(*b); }
+            _ => { let _ = twin.set_universal_input_output3(*b); }
         },
         Effect::Show(_) | Effect::Quit => {}
         Effect::Next(n) => {
@@ -532,7 +532,7 @@ fn apply_effect(twin: &mut Machine, e: &Effect) -> Result<bool, ()> {
         Effect::Load(path) => {
             // real parser + translator are components of the session; the file decides
             match crate::helpers::read_asm_file(path.as_str()) {
-                Ok(asm) => twin.load(Translator::compile(&asm)),
+                Ok(asm) => { let _ = twin.load(Translator::compile(&asm)); }
                 Err(_) => return Err(()),
             }
         }
@@ -723,9 +723,9 @@ fn run(scn: &Scn, ctx: &mut Ctx) -> Result<(), Violation> {
                     let m = if matches!(twin.step_mode(), StepMode::Real) { StepMode::Assembly } else { StepMode::Real };
                     twin.set_step_mode(m)
                 }
-                Ev::Ctrl('e') => twin.trigger_key_interrupt(),
-                Ev::Ctrl('r') => twin.cpu_reset(),
-                Ev::Ctrl('l') => twin.trigger_key_continue(),
+                Ev::Ctrl('e') => { let _ = twin.trigger_key_interrupt(); }
+                Ev::Ctrl('r') => { let _ = twin.cpu_reset(); }
+                Ev::Ctrl('l') => { let _ = twin.trigger_key_continue(); }
                 Ev::Key(k) if k == "Enter" => {
                     if input_before.is_empty() {
                         twin.trigger_key_clock();
